@@ -1,4 +1,10 @@
+mod c08;
+mod data;
+mod run;
+mod source;
+
 fn main() {
-    eprintln!("no sub-commands yet");
-    std::process::exit(2);
+    vf_kit::dispatch! {
+        "c08" => c08::C08,
+    }
 }
